@@ -13,6 +13,7 @@ import (
 	"errors"
 	"fmt"
 	"os"
+	"os/exec"
 	"path/filepath"
 	"runtime/debug"
 	"strconv"
@@ -29,7 +30,42 @@ import (
 	"verifsim/worlds/core"
 )
 
+// childParse is run in a worker process of its own (simworker child -prop C14): it parses the
+// native-format bytes on its standard input and answers "ok" or "error: ...". A parser that kills
+// the process (a stack overflow is not a panic: nothing recovers from it) takes the child with it,
+// and the parent has its verdict.
+func childParse(in []byte) []byte {
+	if _, err := circuit.ParseMPCLC(bytes.NewReader(in)); err != nil {
+		return []byte("error: " + err.Error())
+	}
+	return []byte("ok")
+}
+
+// parseInChild runs childParse on data; died is true if the child process did not answer.
+func parseInChild(data []byte) (answer string, died bool, stderr string) {
+	exe, err := os.Executable()
+	if err != nil {
+		return "harness: " + err.Error(), false, ""
+	}
+	cmd := exec.Command(exe, "child", "-prop", "C14")
+	cmd.Stdin = bytes.NewReader(data)
+	var out, errb bytes.Buffer
+	cmd.Stdout, cmd.Stderr = &out, &errb
+	if err := cmd.Run(); err != nil {
+		se := errb.String()
+		if i := strings.Index(se, "\n\n"); i > 0 {
+			se = se[:i]
+		}
+		if len(se) > 300 {
+			se = se[:300]
+		}
+		return err.Error(), true, se
+	}
+	return out.String(), false, ""
+}
+
 func init() {
+	core.RegisterChild("C14", childParse)
 	core.Register("C14", func(tier string) core.World { return &world{tier: tier} })
 }
 
@@ -984,7 +1020,75 @@ func (w *world) faults(t *rt.Tape, res *core.Result, smp *sample) *core.Failure 
 	return nil
 }
 
+// hostileHeader builds a native-format file of a circuit without gates whose single input is either
+// a compound nested depth levels deep (one member per level) or has a type name of nested slices
+// ("[][][]...u8") of nameLen bytes. Every declared size in it is at most a million.
+func hostileHeader(depth, nameLen int) []byte {
+	var b bytes.Buffer
+	u32 := func(v uint32) { binary.Write(&b, binary.BigEndian, v) }
+	str := func(s string) { u32(uint32(len(s))); b.WriteString(s) }
+	u32(uint32(circuit.MAGIC))
+	u32(0) // gates
+	u32(1) // wires
+	u32(1) // inputs
+	u32(0) // outputs
+	if nameLen > 0 {
+		str("a")
+		str(strings.Repeat("[]", (nameLen-2)/2) + "u8")
+		u32(1)
+		u32(0)
+		return b.Bytes()
+	}
+	for i := 0; i <= depth; i++ {
+		str("")
+		str("u1")
+		u32(1)
+		if i < depth {
+			u32(1)
+		} else {
+			u32(0)
+		}
+	}
+	return b.Bytes()
+}
+
 func (w *world) faults0(t *rt.Tape, res *core.Result, smp *sample) (*core.Failure, int, []byte, *circuit.Circuit) {
+	if k := t.Choose(rt.SGen, 150); k < 2 {
+		// bytes that no writer produces but whose declared sizes are all small: a signature nested
+		// over a million levels deep (25 MB), or one type name of nested slices just under a million
+		// bytes. The parser must answer - with a circuit or an error - and not die or take for ever.
+		var data []byte
+		if k == 0 {
+			d := []int{1000, 100000, 1500000}[t.Choose(rt.SGen, 3)]
+			data = hostileHeader(d, 0)
+			smp.Mode = fmt.Sprintf("hostile header: one input, compound members nested %d deep", d)
+		} else {
+			n := []int{20000, 200000, 999999}[t.Choose(rt.SGen, 3)]
+			data = hostileHeader(0, n)
+			smp.Mode = fmt.Sprintf("hostile header: one input whose type name is %d bytes of nested slices", n)
+		}
+		smp.Format, smp.Bytes = "mpclc", len(data)
+		res.Reach["hostile-headers"]++
+		rt.LogEvent('h', uint64(len(data)), 0)
+		if k == 0 {
+			// in a process of its own: what kills it is a verdict, not the end of the check
+			ans, died, se := parseInChild(data)
+			rt.LogBytes('c', []byte(ans))
+			if died {
+				return &core.Failure{Clause: "parser-kills-the-process", Detail: fmt.Sprintf("%s (%d bytes, every declared size at most a million): the process that called ParseMPCLC died (%s): %s", smp.Mode, len(data), ans, se)}, 0, nil, nil
+			}
+			res.Reach["hostile-headers.answered: "+strings.SplitN(ans, ":", 2)[0]]++
+			return nil, 0, nil, nil
+		}
+		pr := safeParse(0, data, 3, 65536)
+		switch {
+		case pr.hung:
+			return &core.Failure{Clause: "parse-hangs", Detail: fmt.Sprintf("%s (%d bytes, every declared size at most a million): ParseMPCLC did not return within %v", smp.Mode, len(data), hangLimit)}, 0, nil, nil
+		case pr.panicV != nil:
+			return &core.Failure{Clause: "panic", Detail: fmt.Sprintf("%s: %v", smp.Mode, pr.panicV)}, 0, nil, nil
+		}
+		return nil, 0, nil, nil
+	}
 	format := t.Choose(rt.SGen, 2)
 	base := richCircuit(t)
 	if t.Choose(rt.SGen, 2) == 0 {
